@@ -41,4 +41,37 @@ TEXT = {
                 "of _FilesystemDataSource read methods are not covered yet.",
         "technique": "contract-based deductive verification: own VC generator over the real source + z3/cvc5",
     },
+    "C02": {
+        "level": "memento_run_local and process_existing_memento (the real source) are proved, for every store state consistent with the functions' outcomes, every context and every call-stack shape: "
+                 "a call whose memento is stored and readable runs no body, memoizes nothing and returns the stored outcome (a stored MementoException converted back); a call that is not stored runs "
+                 "the body exactly once, under the per-call lock and with exactly the effective keyword arguments, returns what the body returned (key-override wrapper removed) or the exception it raised, "
+                 "memoizes at most once with result_type = from_object(value) and the body's override key; RemoteCallException / NonMemoizedException (and subclasses) are re-raised and never memoized; "
+                 "an IOError while reading falls back to recomputation and an IOError while writing is swallowed.",
+        "note": "Partial: ResultType.from_object, the MementoException name round trip, forget and the storage/codec value round trip are assumed contracts here (storage side proved under C05/C07). "
+                "Assumed: deterministic bodies; bodies do not forget; store reads return the memoized value of the key. Observation (not claimed): with ignore_result a memoized exception is replayed as None.",
+        "technique": "contract-based deductive verification: own VC generator over the real source + z3/cvc5",
+    },
+    "C10": {
+        "level": "propagate_dependencies is proved to append exactly the callee's reference-with-arguments to the caller's invocation list and to extend the caller's dependency set by the callee and the callee's "
+                 "recorded dependencies, changing no other memento. memento_run_local is proved to perform exactly one such propagation into the calling frame on every exit (hit, computed, exception result, re-raised "
+                 "exception) and to restore the call stack; LocalRunnerBackend.batch_run is proved (loop invariant, any batch length) to propagate once per element, in element order, whichever branch serves it; "
+                 "dependencies recorded in a stored memento flow to the caller like freshly computed ones.",
+        "note": "Partial: equality with the real call tree of an arbitrary program is the stated induction lemma over these contracts; StackFrame/ResourceFunction provenance of resources is not covered yet. "
+                "Dependency sets are compared by object identity of references.",
+        "technique": "contract-based deductive verification: own VC generator over the real source + z3/cvc5",
+    },
+    "C15": {
+        "level": "LocalRunnerBackend.batch_run is proved with a loop invariant over any batch length: the result list has one slot per element, slot j holds the outcome of element j (value, or the exception object "
+                 "for a failing element, including non-memoized and remote-call exceptions), at most one body call per element and none for elements already stored and readable.",
+        "note": "Partial: call_batch / map_over_range / call (base.py) are not under contract yet; 'at most once per distinct element' relies on memento_run_local's contract plus the assumption that bodies only add to the store.",
+        "technique": "contract-based deductive verification: own VC generator over the real source + z3/cvc5",
+    },
+    "C16": {
+        "level": "memento_run_batch is proved for all inputs and call-stack shapes: under a calling frame with prevent_further_calls it raises RuntimeError before any runner is invoked; otherwise exactly one dispatch, "
+                 "to the local runner iff force_local; the dispatched context carries the call's own context arguments when attached (also an empty dict) and otherwise the calling frame's, with the caller's correlation id; "
+                 "the dispatched references are rebuilt with exactly those context arguments (same function, args, kwargs), so the argument hash includes them. memento_run_local is proved (C02) to pass the body only "
+                 "effective_kwargs.",
+        "note": "Partial: with_context_args / with_prevent_further_calls (base.py) and RecursiveContext.update are modelled (records), not proved; that effective_kwargs excludes the context arguments is C04's subject.",
+        "technique": "contract-based deductive verification: own VC generator over the real source + z3/cvc5",
+    },
 }
